@@ -17,3 +17,9 @@ Definition utf8_DecodeRune (s : list N) : Z * Z :=
 
 Definition time_AppendFormat (t : tval) (dst : list N) (layout : list N) : list N := dst ++ t_fmt t.
 Definition tval0 : tval := {| t_unix := 0; t_unixnano := 0; t_fmt := [] |}.
+
+(* strconv.AppendFloat(dst, val, fmt, prec, bitSize): the text is an oracle (a function of the float's bits
+   and width, the format byte, the precision and the bit size); theorems state what they assume of it *)
+Definition float_oracle : Type := gofl -> N -> Z -> Z -> list N.
+Definition strconv_AppendFloat (fo : float_oracle) (dst : list N) (val : gofl) (fmt : N) (prec bitSize : Z) : list N :=
+  dst ++ fo val fmt prec bitSize.
